@@ -371,7 +371,7 @@ def run(cx):
     cx.ob("R15c", execute, kws == ["WHERE", "GROUP BY", "ORDER BY"], "clauses are appended as WHERE, GROUP BY, ORDER BY" if kws == ["WHERE", "GROUP BY", "ORDER BY"] else f"clause order {kws}", stmt="clause order")
 
     # ------------------------------------------------------------------ R15b / R15e
-    _normalisation(cx, fv_init, fv_make, tables)
+    cx.guard(_normalisation, cx, fv_init, fv_make, tables)
 
     # ------------------------------------------------------------------ R15f plumbing
     # None args dropped
